@@ -273,6 +273,36 @@ func runC07(c *core.Ctx) core.Meta {
 	c.BuildSSA()
 	prov := core.NewProv(c)
 
+	// ---------------- R07.7 register reads hand out their own bytes (fresh.go) ----------------
+	st77 := c.Rule("R07.7", "the byte-valued register reads (ReadReg / ReadOperandBytes of the emulation wavefront, the timing register-file accessor and the timing wavefront) return storage allocated by that call on every path, never a window into the register file or a buffer kept by the accessor: handlers read several operands before they use them (ds_write2 reads DATA0 and DATA1, then copies), so a buffer that the next read overwrites makes the first operand read back as the second", 3)
+	{
+		fc := newFreshCtx(c)
+		for _, rel := range []string{emuPkg, cuPkg, "amd/timing/wavefront"} {
+			for _, fn := range c.SrcFuncs(rel) {
+				if fn.Name() != "ReadReg" && fn.Name() != "ReadOperandBytes" {
+					continue
+				}
+				res := fn.Signature.Results()
+				if res.Len() != 1 {
+					continue
+				}
+				if _, isSlice := res.At(0).Type().Underlying().(*types.Slice); !isSlice {
+					continue
+				}
+				st77.Instances++
+				c.MarkAnalysed(fn)
+				r := fc.result(fn, 0)
+				// bytes obtained through the register-file interface are judged at the implementation
+				okR := r.ok || strings.HasPrefix(r.why, "the result of interface method")
+				st77.Ob(okR)
+				st77.Sample("%s returns bytes of its own: %v %s", core.FuncName(fn), okR, r.why)
+				if !okR {
+					c.ReportAt("R07.7", fn, fn.Pos(), "read-shared-bytes:"+core.FuncName(fn), core.FuncName(fn)+" can return bytes that are not allocated by the call ("+r.why+"): the next register read of the wavefront overwrites what the caller still holds, so an operand read back changes with the history of reads (timing ds_write2_b32 stores DATA1 into both slots)")
+				}
+			}
+		}
+	}
+
 	// ---------------- R07.1 half-register merges ----------------
 	st1 := c.Rule("R07.1", "every read-modify-write of a 64-bit special register that installs a 32-bit half (x = (x & M) | (uint64(v) << S), in one or two statements) keeps exactly the other half: M == ^(0xffffffff << S); in the context of a HI half S is 32, of a LO half S is 0; half reads are uint32(x >> S) with the same S", 8)
 	type accessor struct{ pkg, fn string }
